@@ -22,7 +22,7 @@ THEOREMS = [
     "C16_queryUtility_from_listings", "C16_listings_local", "C16_queries_follow_bases",
     "C16_generated_counter_eq_model", "C16_generated_utility_cache_eq_model", "C16_generated_utilities_eq_model",
     "C16_generated_adapters_eq_model", "C16_generated_subscriptions_eq_model", "C16_generated_rebuild_eq_model",
-    "C16_generated_queries_eq_model",
+    "C16_generated_rebuild_from_cache_eq_model", "C16_generated_inference_eq_explicit", "C16_generated_queries_eq_model",
 ]
 REGISTRY_PY = os.path.join(C.REPO, "src", "zope", "interface", "registry.py")
 GEN = os.path.join(C.COQ, "Gen", "ComponentsKernel.v")
@@ -43,8 +43,8 @@ RULE = ("histories of 5-40 calls of the eight register*/unregister* methods (+ r
         "component-and-factory call) on one to three Components objects connected and re-based through __bases__ "
         "mid-history (40% of the cases), over a generated interface/class world, with identical / "
         "equal-but-distinct / unhashable / falsy components and factory= objects, several names and infos, "
-        "event=False in a fifth of the register calls, related provided interfaces, explicit / factory= / inferred / "
-        "class-valued arguments, and occasional corruption of the utilities registry behind the object's back "
+        "event=False in a fifth of the register calls, related provided interfaces, explicit / factory= / inferred "
+        "(provided, required and -- through named() -- the name) / class-valued arguments, and occasional corruption of the utilities registry behind the object's back "
         "followed by rebuildUtilityRegistryFromLocalCache(True); after every call: return value, events, four "
         "listings, probe counters, 3 targeted queries put to the object or another one of the chain (12 after the "
         "last call); a case is non-trivial when it registers a utility and at least one unregister call returned "
@@ -65,8 +65,12 @@ ASSUMPTIONS = [
     "is still due",
     "component __eq__ is an equivalence, __hash__ is consistent with it, and an unhashable component is never "
     "equal to a hashable one",
-    "provided / required / name are passed explicitly or inferred to the same values; event=True",
-    "Components has no bases; the lookup caches of its two registries are transparent (C05)",
+    "the inference helpers (_getUtilityProvided, _getName, _getAdapterProvided, _getAdapterRequired) are oracles of "
+    "the regenerated kernels (any answers: C16_generated_inference_eq_explicit); the tie exercises them through "
+    "implementer / directlyProvides declarations, __component_adapts__ and named() with the inferred values made "
+    "explicit in the model's operation",
+    "the lookup caches and stored resolution orders of the registries are transparent (C05, C06): the query methods "
+    "are the uncached walkers over the registries of the current __bases__ chain",
 ]
 F9_KEY = "F9-multi-subscription-unregister-one-event"
 F11_KEY = "F11-adapter-overwrite-registered-only"
@@ -527,6 +531,12 @@ def gen_case(rng, permit, n_steps):
             op = gen_op()
             if op[0] == "reinit" and used_as_base:
                 continue
+            if op[0] in ("regU", "regA") and (op[3] if op[0] == "regU" else op[4]) != 0:
+                # leave the name to inference from a named() decoration
+                if op[6] == "plain" and rng.random() < 0.25:
+                    op[6] = "named"
+                elif op[6] == "infer" and None not in (op[2] if op[0] == "regA" else []) and rng.random() < 0.5:
+                    op[6] = "inferall"
             if op[0] in ("regU", "regA", "regS", "regH"):
                 op = op + [rng.random() > 0.2]         # event=False in a fifth of the register calls
             sh = led.shapes_of(op)
@@ -811,11 +821,11 @@ TECHNIQUE = ("fail-closed ast translator regenerating the bookkeeping kernels of
 LEVEL_TEXT = ("The bookkeeping kernels of registry.py (_UnhashableComponentCounter, _UtilityRegistrations, the eight "
               "register/unregister methods with event=, four listings, rebuildUtilityRegistryFromLocalCache and the eight "
               "query methods of Components) are re-translated from the current source text into Gallina on every run by a "
-              "fail-closed translator and proved equal to the model for all states and arguments (7 theorems "
-              "C16_generated_*_eq_model). Objects connected by __bases__: listings stay local and queries follow the "
+              "fail-closed translator and proved equal to the model for all states and arguments (9 theorems "
+              "C16_generated_*, incl. inferred = explicit arguments for arbitrary inference oracles). Objects connected by __bases__: listings stay local and queries follow the "
               "current base chain (C16_listings_local, C16_queries_follow_bases); rebuild=True repairs any tampered "
               "registry (C16_probe_repairs). "
-              "Machine-checked theorems (Properties/C16.v, 23 theorems, closed under the global context) state for every "
+              "Machine-checked theorems (Properties/C16.v, 25 theorems, closed under the global context) state for every "
               "history of the eight mutators and re-initialisation that the four listings equal the Spec ledger, that both "
               "underlying registries hold exactly what the listings determine and that their pruning structures never "
               "hide a stored registration, that queryUtility answers from the listings, that the probe finds nothing, that "
@@ -830,5 +840,6 @@ LEVEL_NOTE = ("Trusted: Coq kernel/vm_compute; the hand transcription of registr
               "_utility_registrations_cache property, the inference helpers; the registries behind the query methods "
               "are the uncached walkers over the current chain (caches / stored ro: C05, C06). Re-__init__ of an object "
               "that is still another object's base is outside the model. "
-              "event=False, inference of provided/required/name, bases, pickling are outside the model (inference is "
-              "exercised by the tie with the inferred values made explicit in the model).")
+              "Inference of provided / required / name is covered at the kernel level for arbitrary oracle answers and "
+              "exercised by the tie (implementer / directlyProvides, __component_adapts__, named()); pickling and "
+              "subclasses overriding _init_registries / _getBases / _setBases are outside the model.")
